@@ -1,6 +1,7 @@
 CONSTANTS
   V = {"cleanup_nostop"}
   MaxN = 3
+  Vary = FALSE
 SPECIFICATION Spec
 INVARIANTS TypeOK CleanupOnlyAfterStop
 CHECK_DEADLOCK FALSE
